@@ -40,13 +40,14 @@ package gocvss20
 //@   ensures[error_value] (=> (not (isnil result)) (= result (ite (< (midx20 abv) 0) (PErr T_ErrInvalidMetric abv) ErrInvalidMetricValue)))
 //@   ensures[err_unknown_metric] (=> (< (midx20 abv) 0) (and (is-ErrInvalidMetric result) (str= (pabv result) abv)))
 //@   ensures[err_illegal_value] (=> (and (>= (midx20 abv) 0) (= (vcode20 (midx20 abv) value) #xff)) (= result ErrInvalidMetricValue))
-//@   allocs 0
+//@   ensures[no_allocation_known_metric] (=> (>= (midx20 abv) 0) (= allocs (old allocs)))
 
 //@ func (CVSS20).Get(cvss20, abv)
 //@   requires[wf] (wf20 cvss20)
 //@   ensures[known_metric_value] (=> (>= (midx20 abv) 0) (and (isnil result.1) (= (vcode20 (midx20 abv) result.0) (field20 cvss20 (midx20 abv))) (not (= (vcode20 (midx20 abv) result.0) #xff))))
 //@   ensures[nonempty] (=> (>= (midx20 abv) 0) (> (len result.0) 0))
 //@   ensures[unknown_metric] (=> (< (midx20 abv) 0) (and (is-ErrInvalidMetric result.1) (str= (pabv result.1) abv) (= (len result.0) 0)))
+//@   ensures[no_allocation_known_metric] (=> (>= (midx20 abv) 0) (= allocs (old allocs)))
 
 //@ func validate(value, enabled)
 //@   requires[short_list] (<= (len enabled) 255)
@@ -70,26 +71,26 @@ package gocvss20
 //@ func (CVSS20).Impact(cvss20)
 //@   requires[wf] (wf20 cvss20)
 //@   ensures[spec] (<= (rabs (- (fp.to_real result) (impact20 cvss20))) 0.000000001)
-//@   allocs 0
+//@   ensures[no_allocation] (= allocs (old allocs))
 
 //@ func (CVSS20).Exploitability(cvss20)
 //@   requires[wf] (wf20 cvss20)
 //@   ensures[spec] (<= (rabs (- (fp.to_real result) (expl20 cvss20))) 0.000000001)
-//@   allocs 0
+//@   ensures[no_allocation] (= allocs (old allocs))
 
 //@ func (CVSS20).BaseScore(cvss20)
 //@   requires[wf] (wf20 cvss20)
 //@   inline Impact Exploitability
 //@   ensures[spec] (and (fp.eq result (tenth (kof result))) (baseRel20 cvss20 (kof result)))
 //@   ensures[one_decimal_in_scale] (exists-in (k 0 100) (fp.eq result (tenth k)))
-//@   allocs 0
+//@   ensures[no_allocation] (= allocs (old allocs))
 
 //@ func (CVSS20).TemporalScore(cvss20)
 //@   requires[wf] (wf20 cvss20)
 //@   ensures[spec] (and (fp.eq result (tenth (kof result))) (tempRel20 (kof $CVSS20.BaseScore#1) cvss20 (kof result)))
 //@   ensures[one_decimal_in_scale] (exists-in (k 0 100) (fp.eq result (tenth k)))
 //@   oracle[spec_closed] (and (fp.eq result (tenth (kof result))) (exists-in (kb 0 100) (and (baseRel20 cvss20 kb) (tempRel20 kb cvss20 (kof result)))))
-//@   allocs 0
+//@   ensures[no_allocation] (= allocs (old allocs))
 
 //@ func (CVSS20).EnvironmentalScore(cvss20)
 //@   requires[wf] (wf20 cvss20)
@@ -99,7 +100,7 @@ package gocvss20
 //@   ensures[spec_final] (and (fp.eq result (tenth (kof result))) (envRel20 (kof adjustedTemporal) cvss20 (kof result)))
 //@   ensures[one_decimal_in_scale] (exists-in (k -2 100) (fp.eq result (tenth k)))
 //@   oracle[spec_closed] (and (fp.eq result (tenth (kof result))) (exists-in (ka -2 100) (and (adjBaseRel20 cvss20 ka) (exists-in (kt -2 100) (and (tempRel20 ka cvss20 kt) (envRel20 kt cvss20 (kof result)))))))
-//@   allocs 0
+//@   ensures[no_allocation] (= allocs (old allocs))
 
 // ---- split / ParseVector (C01, C06, C13, C14, C18) against the reference fold parseRes20 ----
 
@@ -118,7 +119,7 @@ package gocvss20
 //@   ensures[parts] (forall-in (k 0 13) (=> (<= k result) (same-str (at dst k) (substr vector (segstart20 vector k) (segend20 vector k)))))
 //@   ensures[separated] (forall-in (k 0 12) (=> (< k result) (< (segend20 vector k) (len vector))))
 //@   ensures[last_reaches_end] (= (segend20 vector result) (len vector))
-//@   allocs 0
+//@   ensures[no_allocation] (= allocs (old allocs))
 
 //@ func ParseVector(vector)
 //@   opt split_returns
@@ -126,6 +127,7 @@ package gocvss20
 //@   loop 1 invariant[bounds] (and (<= (- 1) rangeindex) (<= rangeindex ei) (<= 0 ei) (<= ei 13) (validpos20 slci i) (or (and (= rangeindex (- 1)) (= slci 0) (= i 0)) (and (>= rangeindex 0) (> (flat20 slci i) 0))))
 //@   loop 1 invariant[fold] (= (fold20 vector 0 0 0 noVals) (fold20 vector (segstart20 vector (+ rangeindex 1)) (+ rangeindex 1) (flat20 slci i) (valsarr20 cvss20)))
 //@   loop 1 invariant[wf] (wf20 cvss20)
+//@   loop 1 invariant[one_allocation_so_far] (= allocs (+ (old allocs) 1))
 //@   loop 1 invariant[first_is_av] (=> (>= rangeindex 0) (and (>= (len vector) 3) (= (byte vector 0) #x41) (= (byte vector 1) #x56) (= (byte vector 2) #x3a)))
 //@   loop 1 decreases (- ei rangeindex)
 //@   assume_def[unfold_fold_at_element] after Cut#1 (fold20_def vector (segstart20 vector (+ rangeindex 1)) (+ rangeindex 1) (flat20 slci i) (valsarr20 cvss20))
@@ -137,3 +139,36 @@ package gocvss20
 //@   ensures[accept_implies_prefix] (=> (isnil result.1) (and (>= (len vector) 3) (= (byte vector 0) #x41) (= (byte vector 1) #x56) (= (byte vector 2) #x3a)))
 //@   ensures[accept_object] (=> (isnil result.1) (and (not (isnil result.0)) (wf20 (deref result.0)) (forall-in (m 0 13) (= (field20 (deref result.0) m) (select (p.vals (parseRes20 vector)) m)))))
 //@   ensures[reject_nil] (=> (not (isnil result.1)) (isnil result.0))
+//@   ensures[allocation_budget] (=> (isnil result.1) (<= allocs (+ (old allocs) 1)))
+
+// ---- Vector / lenVec (C02, C08, C17) ----
+// Calls to app: #1..#6 base, #7..#9 temporal group (only when it is written), #10..#14 environmental.
+// The chain lemmas are placed after the base group, and after the first get() call that follows each
+// optional group (where both branches have joined again).
+
+//@ func lenVec(cvss20)
+//@   requires[wf] (wf20 cvss20)
+//@   opt prune_infeasible
+//@   inline get Get
+//@   ensures[exact] (= result (canonLen20 cvss20))
+//@   ensures[no_allocation] (= allocs (old allocs))
+
+//@ func (CVSS20).Vector(cvss20)
+//@   requires[wf] (wf20 cvss20)
+//@   opt prune_infeasible
+//@   inline app get Get
+//@   lemma_chain[prefix_0] after app#1 havoc b : (canonPrefix20_0 (bufstr b) cvss20)
+//@   lemma_chain[prefix_1] after app#2 havoc b : (canonPrefix20_1 (bufstr b) cvss20)
+//@   lemma_chain[prefix_2] after app#3 havoc b : (canonPrefix20_2 (bufstr b) cvss20)
+//@   lemma_chain[prefix_3] after app#4 havoc b : (canonPrefix20_3 (bufstr b) cvss20)
+//@   lemma_chain[prefix_4] after app#5 havoc b : (canonPrefix20_4 (bufstr b) cvss20)
+//@   lemma_chain[prefix_5] after app#6 havoc b : (canonPrefix20_5 (bufstr b) cvss20)
+//@   lemma_chain[prefix_6] after app#7 havoc b : (canonPrefix20_6 (bufstr b) cvss20)
+//@   lemma_chain[prefix_7] after app#8 havoc b : (canonPrefix20_7 (bufstr b) cvss20)
+//@   lemma_chain[prefix_8] after CVSS20.get#10 havoc b : (canonPrefix20_8 (bufstr b) cvss20)
+//@   lemma_chain[prefix_9] after app#10 havoc b : (canonPrefix20_9 (bufstr b) cvss20)
+//@   lemma_chain[prefix_10] after app#11 havoc b : (canonPrefix20_10 (bufstr b) cvss20)
+//@   lemma_chain[prefix_11] after app#12 havoc b : (canonPrefix20_11 (bufstr b) cvss20)
+//@   lemma_chain[prefix_12] after app#13 havoc b : (canonPrefix20_12 (bufstr b) cvss20)
+//@   ensures[canonical] (isCanon20 result cvss20)
+//@   ensures[one_allocation] (= allocs (+ (old allocs) 1))
